@@ -402,8 +402,57 @@ def tree_strategy():
     return st.recursive(leaf, extend, max_leaves=14)
 
 
+def run_blocks():
+    """Blocks made of *runs*: 1-3 adjacent conditionals over the same flag (plain or negated, with and without else
+    branches), several runs per block, bodies that are leaves, small blocks or conditionals re-testing a flag - the
+    shapes the merging and collapsing rules are written for, which independent draws rarely line up."""
+    flag = st.sampled_from(["c0", "c1", "c2"])
+    small = st.one_of(st.just(["L"]), st.just(["L"]), st.just(["N"]),
+                      st.lists(st.just(["L"]), min_size=2, max_size=3).map(lambda ch: ["B", ch]))
+
+    @st.composite
+    def body(draw, depth):
+        k = draw(st.integers(0, 9))
+        if depth <= 0 or k < 5:
+            return draw(small)
+        f = draw(flag)
+        c = f if draw(st.booleans()) else ["not", f]
+        inner = (["I", c, draw(body(depth - 1))] if draw(st.booleans())
+                 else ["E", c, draw(body(depth - 1)), draw(body(depth - 1))])
+        if k < 8:
+            return inner
+        ch = [draw(small), inner] + ([draw(small)] if draw(st.booleans()) else [])
+        return ["B", list(draw(st.permutations(ch)))]
+
+    @st.composite
+    def block(draw, depth=2):
+        nruns = draw(st.integers(1, 4))
+        children = []
+        for _ in range(nruns):
+            f = draw(flag)
+            for _ in range(draw(st.integers(1, 3))):
+                c = f if draw(st.integers(0, 3)) > 0 else ["not", f]
+                if draw(st.booleans()):
+                    children.append(["E", c, draw(body(depth)), draw(body(depth))])
+                else:
+                    children.append(["I", c, draw(body(depth))])
+            if draw(st.integers(0, 4)) == 0:
+                children.append(["L"])
+        t = ["B", children]
+        w = draw(st.integers(0, 5))
+        if w == 0:
+            t = ["I", draw(flag), t]
+        elif w == 1:
+            t = ["E", draw(flag), ["L"], t]
+        elif w == 2:
+            t = ["B", [t]]
+        return t
+    return block()
+
+
 def random_shard(ctx, n):
     hyp_explore(ctx, tree_strategy(), lambda tree: one(ctx, tree, "random"), n, "random")
+    hyp_explore(ctx, run_blocks(), lambda tree: one(ctx, tree, "runs"), n, "runs")
 
 
 def run(ctx):
